@@ -15,6 +15,7 @@ import DG.Trace
 import DG.FcPkg
 import DG.SubsetProto
 import DG.FcDeps
+import DG.Leave
 /-! Line-protocol driver: one request per line on stdin, one answer per line on stdout. -/
 open DG DG.Sexp
 
@@ -26,6 +27,9 @@ def joinSp (l : List String) : String := " ".intercalate l
 
 def handle (st : DState) (req : Sexp) : DState × String :=
   match DG.Subset.Proto.handle req with
+  | some out => (st, out)
+  | none =>
+  match DG.Leave.Proto.handle req with
   | some out => (st, out)
   | none =>
   match req with
